@@ -320,6 +320,7 @@ def _one_round(trees: Dict[str, ast.Module]) -> int:
             if p in known or d is None or not _const(d) or _rebound(fn, p):
                 continue
             vals = []
+            inside = {id(x) for x in ast.walk(fn) if isinstance(x, ast.Call)}
             for c, off in sites:
                 if any(isinstance(a, ast.Starred) for a in c.args) or any(k.arg is None for k in c.keywords):
                     vals = None
@@ -331,6 +332,8 @@ def _one_round(trees: Dict[str, ast.Module]) -> int:
                         v = c.args[i]
                 kw = next((k.value for k in c.keywords if k.arg == p), None)
                 v = v if v is not None else kw
+                if isinstance(v, ast.Name) and v.id == p and id(c) in inside:
+                    continue  # a call inside f that hands f's own p on (recursion, or a same-named callee): no new value
                 vals.append(v if v is not None else d)
             if vals and all(_const(v) for v in vals) and len({(type(v.value).__name__, repr(v.value)) for v in vals}) == 1:
                 out[p] = vals[0]
@@ -358,6 +361,14 @@ def _one_round(trees: Dict[str, ast.Module]) -> int:
                             sites = None
                         else:
                             sites = [(c, 0) for nm in names for c in calls.get(nm, [])]
+                            # a method is called through an attribute; a module-level function by its plain name or as
+                            # `<module>.f(..)` - a function and a method of one name (`Match`) are not each other's sites
+                            if cls is not None:
+                                sites = [(c, o) for c, o in sites if isinstance(c.func, ast.Attribute)]
+                            else:
+                                mod_aliases = {a for imp in imports.values() for a in imp["modules"]}
+                                sites = [(c, o) for c, o in sites if isinstance(c.func, ast.Name)
+                                         or (isinstance(c.func, ast.Attribute) and isinstance(c.func.value, ast.Name) and c.func.value.id in mod_aliases)]
                     consts = constant_of(st, method, sites) if sites else {}
                     fields = {}
                     if consts and st.name == "__init__" and cls is not None:
@@ -370,6 +381,21 @@ def _one_round(trees: Dict[str, ast.Module]) -> int:
                                 if stores.get(f, 0) == 1 and f not in strings and mangled not in strings and not stores.get(mangled if mangled != f else "\0"):
                                     fields[f] = consts[s.value.id]
                     if consts:
+                        # an explicit argument that only repeats the default is dropped at the call site (`Match(a, b, True)`
+                        # -> `Match(a, b)`): keyword arguments, and a positional one if it is the last
+                        pos_, _kwo, defaults_ = _params(st, method)
+                        for p_, cv_ in consts.items():
+                            d_ = defaults_.get(p_)
+                            if not (_const(d_) and type(d_.value) is type(cv_.value) and d_.value == cv_.value):
+                                continue
+                            for c_, off_ in sites:
+                                kw_ = [k for k in c_.keywords if k.arg == p_]
+                                if kw_:
+                                    c_.keywords = [k for k in c_.keywords if k.arg != p_]
+                                    changed += 1
+                                elif p_ in pos_ and len(c_.args) == pos_.index(p_) + off_ + 1 and not c_.keywords:
+                                    c_.args.pop()
+                                    changed += 1
                         sb = _Subst(consts, {}, None)
                         st.body = [sb.visit(s) for s in st.body]
                         changed += sb.n
